@@ -1,7 +1,7 @@
 #!/bin/bash
-# tools/seedround.sh <offset> <ID>...   verify + import + test the deliverables of seeding agents under /tmp/seed3/<ID>
-off=$1; shift
+# tools/seedround.sh <offset> <basedir> <ID>...   verify + import + test the deliverables of seeding agents under <basedir>/<ID>
+off=$1; shift; base=$1; shift
 for id in "$@"; do
-  python3 /verif/tools/seedverify.py /tmp/seed3/$id > /tmp/seed3/$id/verify.log 2>&1
-  python3 /verif/tools/seedbatch.py $id /tmp/seed3/$id "" $off 2>&1 | tee -a /tmp/seed3/results.log
+  python3 /verif/tools/seedverify.py $base/$id > $base/$id/verify.log 2>&1
+  python3 /verif/tools/seedbatch.py $id $base/$id "" $off 2>&1 | tee -a $base/results.log
 done
